@@ -310,6 +310,11 @@ class Taxonomy(object):
         if len(int_names) != len(set(int_names)):
             raise KeyError("Internal Names are not unique. Internal names founded: {}. If you specify use_internal_name=False, please report the bug to us.".format(int_names))
 
+        # a name carried by both a leaf and an internal node makes every lookup by name ambiguous as well
+        shared_names = set(int_names) & set(node.name for node in self.tree.traverse() if node.is_leaf())
+        if len(shared_names) > 0:
+            raise KeyError("Names are not unique: {} used for a leaf and for an internal node.".format(sorted(shared_names)))
+
     def _add_depth(self, node, depth=0):
         """  
         Recursive function to add depth to each node of a Etree.
